@@ -516,8 +516,6 @@ func (m *Mux) serveHTTP(w http.ResponseWriter, r *http.Request) error {
 	if sh := m.opts.statsHandler; sh != nil {
 		endTime := time.Now()
 
-		// Try to send Trailers, might not be respected.
-		setOutgoingHeader(w.Header(), stream.trailer)
 		sh.HandleRPC(ctx, &stats.OutTrailer{
 			Trailer: stream.trailer.Copy(),
 		})
